@@ -115,3 +115,10 @@ def cut_uf_decimal(ex, st, fr, ins, a):
         st.ghost['cutctr'] = k + 1
         st.ghost[fkey] = k
     return [T.var('uf%d_lo' % k, 0, (1 << 64) - 1), T.var('uf%d_hi' % k, 0, (1 << 64) - 1)]
+
+
+def cut_end_path(ex, st, fr, ins, a):
+    """the general numeric path (series evaluation) is outside the claim: the path ends here"""
+    E = __import__('executor')
+    ex.reach['outside:general-path'] = ex.reach.get('outside:general-path', 0) + 1
+    raise E.PathEnd('outside')
